@@ -143,10 +143,87 @@ def fkm_process(o):
     o.note("agreement of the emitted pairs with the Clormann-Seeger machine MH is checked by the bounded stand-in (the loop body *is* the rule)")
 
 
+
+@obligation('C02', 'fkm.process.step=HCM-step', functions=[FKM + '.process'])
+def fkm_step(o):
+    """refinement, step by step: one iteration of the inner loop of FKMDetector.process is one step of the Clormann-Seeger rule on the abstract state
+    (residual stack, primary-path counter IR, largest |turn| so far, recorded pairs): with IZ = stack size, J / I the two topmost entries and K the current turn,
+    IZ > IR and |K-J| >= |J-I| closes the hysteresis (I, J) (recorded as from = I, to = J, both popped; the rule is applied again iff both lie strictly inside the largest
+    |turn|), IZ > IR otherwise changes nothing, IZ = IR raises IR iff |K| exceeds the largest |turn|; nothing else changes.  After the inner loop K is pushed, the largest
+    |turn| is updated and the detector's fields mirror the locals.  (That the whole run equals the machine MH is the induction over these steps - bounded stand-in.)"""
+    from pv.interp import Obj, Opaque
+    cls = o.cls(FKM)
+    det = Obj(cls)
+    res = o.array('residuals0', 'real', kind='list')
+    ir0 = o.int('ir0')
+    mt0 = o.real('max_turn0')
+    o.assume(ir0 >= 1, mt0 >= 0)
+    det.fields.update({'_ir': SV(ir0), '_residuals': res, '_max_turn': SV(mt0), '_recorder': Opaque(('external', 'recorder'))})
+    o.track(det)
+    turns = o.array('turns', 'real')
+    tix = o.array('turns_index', 'int', n=turns.n)
+    o.spec(GEN + 'AbstractDetector._new_turns', lambda I, args, kw: (tix, turns))
+    P = FKM + '.process'
+    o.loop(P, 0, lambda v: z3.And(v.ir >= 1, len_(v.from_vals) == len_(v.to_vals), len_(v.from_vals) >= 0, v.max_turn >= 0, v['self._residuals'].n >= 0))
+    o.loop(P, 1, lambda v: z3.And(v.ir >= 1, len_(v.from_vals) == len_(v.to_vals), len_(v.from_vals) >= 0, v.max_turn >= 0, v['self._residuals'].n >= 0))
+    o.skip_kinds = {'safety', 'inv-init', 'inv-preserve', 'variant'}      # those are the obligations of fkm.process.loop
+    ps = o.paths(lambda: o.I.call(o.method(det, 'process'), [Opaque('samples')]))
+    inner = [p for p in ps if p.kind == 'end' and p.loop_end_id == 1 and p.loop_start_id == 1]
+    outer = [p for p in ps if p.kind == 'end' and p.loop_end_id == 0 and p.loop_start_id == 1]
+    o.shape('the inner loop body has completing paths (close, keep, primary) and the outer body completes after the inner loop', len(inner) >= 3 and len(outer) >= 1,
+            f'{len(inner)} inner / {len(outer)} outer paths')
+
+    def ab(x):
+        return z3.If(x >= 0, x, -x)
+    q = z3.Int('q_')
+    clauses = {}
+
+    def clause(label, pc, goal):
+        clauses.setdefault(label, []).append(z3.Implies(z3.And(*pc) if pc else z3.BoolVal(True), goal))
+    for p in inner:
+        S, E = p.loop_start, p.loop_end
+        R, n = S['self._residuals']
+        R2, n2 = E['self._residuals']
+        F, fn = S['from_vals']
+        T, tn = S['to_vals']
+        F2, fn2 = E['from_vals']
+        T2, tn2 = E['to_vals']
+        k, ir, mx = S['current'], S['ir'], S['max_turn']
+        J, I_ = z3.Select(R, n - 1), z3.Select(R, n - 2)
+        closing = z3.And(n > ir, ab(k - J) >= ab(J - I_))
+        clause('step: the body runs only with IZ >= IR', p.pc, n >= ir)
+        clause('step: two stack entries are popped iff the hysteresis closes', p.pc, n2 == z3.If(closing, n - 2, n))
+        clause('step: remaining stack entries untouched', p.pc, z3.ForAll([q], z3.Implies(z3.And(q >= 0, q < n2), z3.Select(R2, q) == z3.Select(R, q))))
+        clause('step: IR is raised iff IZ == IR and |K| exceeds the largest |turn|', p.pc, E['ir'] == z3.If(z3.And(n == ir, ab(k) > mx), ir + 1, ir))
+        clause('step: the largest |turn| and the current turn are not changed', p.pc, z3.And(E['max_turn'] == mx, E['current'] == k))
+        clause('step: the rule is applied again iff a hysteresis closed whose points lie strictly inside the largest |turn|', p.pc,
+               E['loop_assumed'] == z3.And(closing, ab(J) < mx, ab(I_) < mx))
+        clause('step: exactly one pair (from = I, to = J) is recorded iff the hysteresis closes', p.pc,
+               z3.And(fn2 == z3.If(closing, fn + 1, fn), tn2 == z3.If(closing, tn + 1, tn), z3.Implies(closing, z3.And(z3.Select(F2, fn) == I_, z3.Select(T2, tn) == J))))
+        clause('step: earlier recorded pairs untouched', p.pc + [fn == tn],
+               z3.ForAll([q], z3.Implies(z3.And(q >= 0, q < fn), z3.And(z3.Select(F2, q) == z3.Select(F, q), z3.Select(T2, q) == z3.Select(T, q)))))
+    for p in outer:
+        S, E = p.loop_start, p.loop_end
+        R, n = S['self._residuals']
+        R2, n2 = E['self._residuals']
+        k, ir, mx = S['current'], S['ir'], S['max_turn']
+        clause('after the inner loop: it is left only when the rule is not to be applied again or IZ < IR', p.pc, z3.Or(z3.Not(S['loop_assumed']), n < ir))
+        clause('after the inner loop: K is pushed on the stack left by the inner loop', p.pc, z3.And(n2 == n + 1, z3.Select(R2, n) == k,
+               z3.ForAll([q], z3.Implies(z3.And(q >= 0, q < n), z3.Select(R2, q) == z3.Select(R, q)))))
+        clause('after the inner loop: largest |turn| updated with |K|; IR and the recorded pairs as left by the inner loop', p.pc,
+               z3.And(E['max_turn'] == z3.If(ab(k) >= mx, ab(k), mx), E['ir'] == ir, E['from_vals'][1] == S['from_vals'][1], E['to_vals'][1] == S['to_vals'][1]))
+        clause('after the inner loop: the fields mirror the locals (state carried to the next chunk)', p.pc, z3.And(E['self._ir'] == E['ir'], E['self._max_turn'] == E['max_turn']))
+    for label, fs in clauses.items():
+        o.prove(label + f' (all {len(fs)} paths)' if False else label, z3.And(*fs), kind='refine')
+    o.note(f"{len(inner)} paths through the inner loop body, {len(outer)} through the rest of the outer body")
+    o.canary('canary: IR is never raised', z3.And(*[p.loop_end['ir'] == p.loop_start['ir'] for p in inner]) if inner else z3.BoolVal(True),
+             under=[z3.Or(*[z3.And(*p.pc) for p in inner])] if inner else None)
+
+
 META = {
     'level': 'other',
     'explanation': "mixed: kernel-level clauses are proved for all inputs and iterations from loop invariants on the stripped text of extension.pyx and on "
-                   "fkm.py (P); agreement with the executable four-point / HCM machines and the three-point multiset equivalence are bounded (B).",
+                   "fkm.py (P), and each iteration of the FKM detector's loops is proved to be one step of the Clormann-Seeger rule on the abstract state (step refinement; the induction over the steps is not an obligation); agreement of whole runs with the executable four-point / HCM machines and the three-point multiset equivalence are bounded (B).",
     'trusted_base': ['pyx stripping (types dropped)', 'floats = reals'],
 }
 
